@@ -746,7 +746,42 @@ pub fn run_render(ctx: &Ctx, rep: &Report) {
                 }
             }
         }
-        rep.part("very long search queries (63..=300 characters), a draw after every key", c, json!({}));
+        // k ASCII characters, then one character of 2, 3 or 4 bytes, then a few more: a multi-byte character across
+        // every byte offset from 50 to 140 (buffers cut at a byte count)
+        for wide in ['\u{e9}', '\u{20ac}', '\u{1f600}'] {
+            for k in 50usize..=140 {
+                let mut s = St2 { total: 3, core: St { n: 0, sel: Some(0), quit: false, search: false, sort: 3, asc: false, query: String::new(), width: 0 } };
+                let mut evs = vec![Event::Key(KeyEvent::new(KeyCode::Char('/'), KeyModifiers::NONE))];
+                evs.extend(std::iter::repeat(Event::Key(KeyEvent::new(KeyCode::Char('a'), KeyModifiers::NONE))).take(k));
+                evs.push(Event::Key(KeyEvent::new(KeyCode::Char(wide), KeyModifiers::NONE)));
+                evs.push(Event::Key(KeyEvent::new(KeyCode::Char('b'), KeyModifiers::NONE)));
+                evs.push(Event::Key(KeyEvent::new(KeyCode::Backspace, KeyModifiers::NONE)));
+                evs.push(Event::Key(KeyEvent::new(KeyCode::Backspace, KeyModifiers::NONE)));
+                for (i, ev) in evs.iter().enumerate() {
+                    c += 1;
+                    // only the keys after the ASCII run are followed by a draw (the run itself was drawn above)
+                    let r = if i <= k {
+                        let m = tokio::sync::Mutex::new(build2(&s));
+                        let mut g = m.try_lock().expect("fresh mutex");
+                        guarded(|| {
+                            let _ = crate::update(&mut g, *ev);
+                        })
+                        .map(|_| St2 { total: s.total, core: read_back(&g) })
+                        .map_err(|p| format!("update: {p}"))
+                    } else {
+                        step2(&s, *ev)
+                    };
+                    match r {
+                        Ok(t) => s = t,
+                        Err(p) => {
+                            rep.violation(&format!("panic:long-query:{}:{}", last_panic_file(), panic_class(&p)), format!("{p} (at {}) after '/', {k} x 'a' and {wide:?}", last_panic_loc()), json!({"kind": "long-query", "char": wide.to_string(), "len": k}));
+                            break;
+                        }
+                    }
+                }
+            }
+        }
+        rep.part("very long search queries (63..=300 characters; a multi-byte character at every byte offset 50..=140), a draw after every key", c, json!({}));
         total_trans += c;
         total_states += c;
     }
